@@ -55,7 +55,11 @@ class CaseTimeout(Exception):
 
 
 class time_limit:
-    """`with time_limit(5): ...` raises CaseTimeout when the real code loops (main thread only)."""
+    """`with time_limit(5): ...` raises CaseTimeout when the real code loops (main thread only).
+
+    The limit is on the CPU time this process burns (ITIMER_PROF), so a loop is cut after `seconds` of spinning
+    while a check that is merely starved of CPU on a busy machine is not mistaken for a hang; a wall-clock
+    backstop (6x, at least 60 s) still ends a case that blocks without using CPU."""
 
     def __init__(self, seconds):
         self.seconds = seconds
@@ -66,11 +70,15 @@ class time_limit:
     def __enter__(self):
         import signal
         self.old = signal.signal(signal.SIGALRM, self._fire)
-        signal.setitimer(signal.ITIMER_REAL, self.seconds)
+        self.oldp = signal.signal(signal.SIGPROF, self._fire)
+        signal.setitimer(signal.ITIMER_PROF, self.seconds)
+        signal.setitimer(signal.ITIMER_REAL, max(60.0, 6.0 * self.seconds))
 
     def __exit__(self, *a):
         import signal
+        signal.setitimer(signal.ITIMER_PROF, 0)
         signal.setitimer(signal.ITIMER_REAL, 0)
+        signal.signal(signal.SIGPROF, self.oldp)
         signal.signal(signal.SIGALRM, self.old)
         return False
 
